@@ -383,3 +383,49 @@ func verifLemmaLessTotal(items OrderSchemaItems, i, j int) (ij, ji bool) {
 func verifLemmaLessTransitive(items OrderSchemaItems, i, j, k int) (ij, jk, ik bool) {
 	return items.Less(i, j), items.Less(j, k), items.Less(i, k)
 }
+
+// pointer lookups agree with the JSON form (C15)
+func verifLemmaParameterLookup(p Parameter, token string) (interface{}, error, []byte) {
+	v, err := p.JSONLookup(token)
+	b, merr := p.MarshalJSON()
+	if merr != nil {
+		return nil, nil, nil
+	}
+	return v, err, b
+}
+
+func verifLemmaHeaderLookup(h Header, token string) (interface{}, error, []byte) {
+	v, err := h.JSONLookup(token)
+	b, merr := h.MarshalJSON()
+	if merr != nil {
+		return nil, nil, nil
+	}
+	return v, err, b
+}
+
+func verifLemmaItemsLookup(i Items, token string) (interface{}, error, []byte) {
+	v, err := i.JSONLookup(token)
+	b, merr := i.MarshalJSON()
+	if merr != nil {
+		return nil, nil, nil
+	}
+	return v, err, b
+}
+
+func verifLemmaPathsLookup(p Paths, token string) (interface{}, error, []byte) {
+	v, err := p.JSONLookup(token)
+	b, merr := p.MarshalJSON()
+	if merr != nil {
+		return nil, nil, nil
+	}
+	return v, err, b
+}
+
+func verifLemmaResponsesLookup(r Responses, token string) (interface{}, error, []byte) {
+	v, err := r.JSONLookup(token)
+	b, merr := r.MarshalJSON()
+	if merr != nil {
+		return nil, nil, nil
+	}
+	return v, err, b
+}
